@@ -238,3 +238,9 @@ def run(chk):
     if seen != 4999:
         raise MachineryError('C08: roman table incomplete (%d values)' % seen)
     chk.traces += 1
+
+
+def replay_case(payload):
+    """re-execute one recorded history of numbered constructs against the current tree"""
+    kind, msg = replay_one(payload)
+    return kind == 'ok', msg
